@@ -93,7 +93,9 @@ func (x *ltr) declare(n string, v any) {
 	}
 }
 
-func litVal(n *big.Int, w int) *lval { return &lval{term: n.String(), w: w, lit: n, bit: n.Cmp(big.NewInt(1)) <= 0} }
+func litVal(n *big.Int, w int) *lval {
+	return &lval{term: n.String(), w: w, lit: n, bit: n.Cmp(big.NewInt(1)) <= 0}
+}
 
 func pow2(w int) *big.Int { return new(big.Int).Lsh(big.NewInt(1), uint(w)) }
 
@@ -231,6 +233,14 @@ func (x *ltr) eval(e ast.Expr) any {
 			return &lval{term: "¬(" + c.term + ")", deps: c.deps}
 		case token.AND:
 			return x.eval(v.X)
+		case token.SUB:
+			// a negative literal (`return -1` of an `int` result): the two's-complement 64-bit word
+			if bl, ok := v.X.(*ast.BasicLit); ok && bl.Kind == token.INT {
+				n, ok2 := new(big.Int).SetString(bl.Value, 0)
+				if ok2 && n.Sign() > 0 && n.BitLen() < 64 {
+					return litVal(new(big.Int).Sub(pow2(64), n), 64)
+				}
+			}
 		}
 	case *ast.BinaryExpr:
 		return x.binary(v)
@@ -532,7 +542,11 @@ func (x *ltr) mkResult(es []ast.Expr, named []string) *lresult {
 		}
 	}
 	for _, e := range es {
-		r.vals = append(r.vals, x.eval(e))
+		v := x.eval(e)
+		if s, ok := v.(*lval); ok && s.w == 0 && s.lit != nil {
+			v = litVal(s.lit, 64) // an untyped integer literal returned as `int` / `uint64` (`return 1`)
+		}
+		r.vals = append(r.vals, v)
 	}
 	r.snap = map[int]*lval{}
 	for k, v := range x.store {
@@ -583,7 +597,13 @@ func (x *ltr) mergeStores(c *lval, a, b map[int]*lval, names map[int]string) map
 func (x *ltr) cellNames() map[int]string {
 	m := map[int]string{}
 	for _, sc := range x.scopes {
-		for n, v := range sc {
+		var keys []string
+		for n := range sc {
+			keys = append(keys, n)
+		}
+		sort.Strings(keys) // deterministic choice among several names of one cell (the output must not depend on map order)
+		for _, n := range keys {
+			v := sc[n]
 			switch c := v.(type) {
 			case int:
 				m[c] = n
@@ -653,7 +673,14 @@ func (x *ltr) execList(stmts []ast.Stmt, named []string, top bool) *lresult {
 			thenStore := x.store
 			x.store = copyStore(before)
 			var rElse *lresult
-			if st.Else != nil {
+			rest := stmts[i+1:]
+			if ei, ok := st.Else.(*ast.IfStmt); ok {
+				// `if c { …return } else if d { … }; rest`  ≡  `if c { …return }; if d { … }; rest`  (only when the then-branch returns)
+				if rThen == nil {
+					lreject("else-if after a branch that does not return")
+				}
+				rest = append([]ast.Stmt{ei}, rest...)
+			} else if st.Else != nil {
 				eb, ok := st.Else.(*ast.BlockStmt)
 				if !ok {
 					lreject("else-if")
@@ -668,7 +695,7 @@ func (x *ltr) execList(stmts []ast.Stmt, named []string, top bool) *lresult {
 				x.store = x.mergeStores(c, thenStore, elseStore, x.cellNames())
 			case rThen != nil && rElse == nil:
 				// the rest of the list is the else-continuation
-				rRest := x.execList(stmts[i+1:], named, false)
+				rRest := x.execList(rest, named, false)
 				if rRest == nil {
 					if !top {
 						lreject("early return inside a nested block")
@@ -853,11 +880,16 @@ func (x *ltr) assign(st *ast.AssignStmt) {
 			}
 			x.store1(l, v, define)
 		case *larr:
+			// Go array values are COPIED on assignment (`_x := *x`, `_z := z.Bits()`): fresh cells holding the current values
 			id, ok := l.(*ast.Ident)
 			if !ok || !define {
 				lreject("array assignment %s", x.text(st))
 			}
-			x.declare(id.Name, v)
+			cp := &larr{w: v.w}
+			for _, c := range v.cells {
+				cp.cells = append(cp.cells, x.newCell(x.store[c]))
+			}
+			x.declare(id.Name, cp)
 		}
 	}
 }
@@ -873,22 +905,27 @@ type limbTarget struct {
 	fn    string // key in fns
 	lean  string // Lean name
 	split string // regexp: a top-level statement matching it starts a new segment
+	ext   bool   // emitted into Gen/Limb/<Field>X.lean (second batch of targets; keeps the first file, and the proofs about it, stable)
 }
 
 var limbTargets = []limbTarget{
-	{"Element.Mul", "Mul", `^C, t\[0\] = (bits\.Mul64|madd1)\(|^if t\[\d+\] != 0`},
-	{"Element.Square", "Square", `^C, t\[0\] = (bits\.Mul64|madd1)\(|^if t\[\d+\] != 0`},
-	{"_mulGeneric", "mulGeneric", `^C, t\[0\] = (bits\.Mul64|madd1)\(|^if t\[\d+\] != 0`},
-	{"_fromMontGeneric", "fromMontGeneric", ``},
-	{"_reduceGeneric", "reduceGeneric", ``},
-	{"Element.Add", "Add", ``},
-	{"Element.Sub", "Sub", ``},
-	{"Element.Neg", "Neg", ``},
-	{"Element.Double", "Double", ``},
-	{"Element.Halve", "Halve", ``},
-	{"Element.smallerThanModulus", "smallerThanModulus", ``},
-	{"madd0", "madd0", ``}, {"madd1", "madd1", ``}, {"madd2", "madd2", ``}, {"madd3", "madd3", ``},
-	{"montReduce", "montReduce", ``},
+	{"Element.Mul", "Mul", `^C, t\[0\] = (bits\.Mul64|madd1)\(|^if t\[\d+\] != 0`, false},
+	{"Element.Square", "Square", `^C, t\[0\] = (bits\.Mul64|madd1)\(|^if t\[\d+\] != 0`, false},
+	{"_mulGeneric", "mulGeneric", `^C, t\[0\] = (bits\.Mul64|madd1)\(|^if t\[\d+\] != 0`, false},
+	{"_fromMontGeneric", "fromMontGeneric", ``, false},
+	{"_reduceGeneric", "reduceGeneric", ``, false},
+	{"Element.Add", "Add", ``, false},
+	{"Element.Sub", "Sub", ``, false},
+	{"Element.Neg", "Neg", ``, false},
+	{"Element.Double", "Double", ``, false},
+	{"Element.Halve", "Halve", ``, false},
+	{"Element.smallerThanModulus", "smallerThanModulus", ``, false},
+	{"madd0", "madd0", ``, false}, {"madd1", "madd1", ``, false}, {"madd2", "madd2", ``, false}, {"madd3", "madd3", ``, false},
+	{"montReduce", "montReduce", ``, false},
+	{"Element.IsZero", "IsZero", ``, true}, {"Element.IsOne", "IsOne", ``, true}, {"Element.NotEqual", "NotEqual", ``, true}, {"Element.Equal", "Equal", ``, true},
+	{"Element.LexicographicallyLargest", "LexicographicallyLargest", ``, true}, {"Element.Cmp", "Cmp", ``, true},
+	{"MulBy3", "MulBy3", ``, true}, {"MulBy5", "MulBy5", ``, true}, {"_butterflyGeneric", "butterflyGeneric", ``, true},
+	{"Element.fromMont", "fromMont", ``, true},
 }
 
 // packages translated at the limb level
@@ -1084,7 +1121,11 @@ func translateLimb(fc *fieldConsts, fset *token.FileSet, fns map[string]*limbFn,
 		lreject("no outputs")
 	}
 	if prop && len(outs) != 1 {
-		lreject("bool result mixed with other outputs")
+		var dbg []string
+		for _, o := range outs {
+			dbg = append(dbg, fmt.Sprintf("%s/w%d", o.term, o.w))
+		}
+		lreject("bool result mixed with other outputs: %v", dbg)
 	}
 	// live-in / live-out per segment
 	inputPos := map[string]int{}
@@ -1251,23 +1292,38 @@ func runLimb() {
 		b.WriteString("   Limb-level straight-line code over Nat with explicit wrap-around; conventions in Model/Limb.lean. -/\n")
 		b.WriteString("import GnarkVerif.Model.Limb\n\nset_option maxRecDepth 100000\nset_option linter.unusedVariables false\n\n")
 		fmt.Fprintf(&b, "namespace GV.Gen.Limb.%s\n\n", fc.name)
+		var bx strings.Builder
+		fmt.Fprintf(&bx, "/- GENERATED by tools/goslp (limb.go) from /repo/%s on every run. DO NOT EDIT.\n", dir)
+		bx.WriteString("   Second batch of limb-level targets (predicates, comparisons, small multiples, butterfly, fromMont). -/\n")
+		modName := strings.ToUpper(fc.name[:1]) + fc.name[1:]
+		fmt.Fprintf(&bx, "import GnarkVerif.Gen.Limb.%s\n\nset_option maxRecDepth 100000\nset_option linter.unusedVariables false\n\n", modName)
+		fmt.Fprintf(&bx, "namespace GV.Gen.Limb.%s\n\n", fc.name)
 		var done []string
 		for _, tg := range limbTargets {
 			if fns[tg.fn] == nil {
 				continue
+			}
+			if (tg.fn == "MulBy3" || tg.fn == "MulBy5") && fc.consts["Limbs"].Cmp(big.NewInt(1)) == 0 {
+				continue // one-word fields build a composite literal from a 64-bit product: not in the fragment (correspondence only)
 			}
 			txt, err := translateLimb(fc, fset, fns, tg)
 			if err != nil {
 				failures = append(failures, fmt.Sprintf("%s %s: %v", dir, tg.fn, err))
 				continue
 			}
-			b.WriteString(txt)
+			if tg.ext {
+				bx.WriteString(txt)
+			} else {
+				b.WriteString(txt)
+			}
 			done = append(done, tg.lean)
 		}
 		fmt.Fprintf(&b, "end GV.Gen.Limb.%s\n", fc.name)
+		fmt.Fprintf(&bx, "end GV.Gen.Limb.%s\n", fc.name)
 		mod := strings.ToUpper(fc.name[:1]) + fc.name[1:]
 		writeFile(filepath.Join("Limb", mod+".lean"), b.String())
-		fmt.Fprintf(&index, "import GnarkVerif.Gen.Limb.%s -- %s\n", mod, strings.Join(done, " "))
+		writeFile(filepath.Join("Limb", mod+"X.lean"), bx.String())
+		fmt.Fprintf(&index, "import GnarkVerif.Gen.Limb.%s -- %s\nimport GnarkVerif.Gen.Limb.%sX\n", mod, strings.Join(done, " "), mod)
 	}
 	writeFile("Limb.lean", index.String())
 	if len(failures) > 0 {
